@@ -26,6 +26,13 @@ def msg_k(k, big=False):
     return Message(device="D", message="m%03d" % k)
 
 
+def content_k(c, k):
+    """the message a route move sends: with "same", every message routed to a connection has the very same bytes"""
+    if c.get("same"):
+        return msg_k((k // 100) * 100 + (2 if c["same"] == 2 else 0), c.get("big"))
+    return msg_k(k, c.get("big"))
+
+
 def shown(text, big):
     """what is recorded of a stream: with long messages, each WHOLE long message stands as a short token"""
     if not big:
@@ -119,7 +126,7 @@ def _run(c, loop):
         events._set_running_loop(loop)
         try:
             h = handlers[i]
-            m = msg_k(k, c.get("big"))
+            m = content_k(c, k)
             if kinds[i] == "tcp-client":
                 h.send_message(m)
             else:
@@ -134,7 +141,7 @@ def _run(c, loop):
         raised = None
         try:
             if mv[0] == "route":
-                expected.setdefault(mv[1], []).append(msg_k(mv[2], c.get("big")).to_string())
+                expected.setdefault(mv[1], []).append(content_k(c, mv[2]).to_string())
                 route(mv[1], mv[2])
             elif mv[0] == "iter":
                 loop.call_soon(loop.stop)
